@@ -116,6 +116,7 @@ def rat(v):
 
 class SymExec(object):
     MAX_PATHS = 4000
+    unroll_opaque = False     # set True on an instance to unroll `for x in <python list/tuple value>` also when its elements are Opaque
 
     def __init__(self, assume=None, inline=None, call_hook=None, test_hook=None, attr_hook=None, name_hook=None):
         self.assume = assume or default_assume
@@ -281,6 +282,14 @@ class SymExec(object):
 
     def e_IfExp(self, n, st):
         t = self.decide(n.test, st)
+        if t is None:
+            # like an `if` statement: a test the path already decided, or that the test hook decides, selects the arm
+            ctxt, neg = self.cond_text(n.test, st)
+            known = st.cond(ctxt)
+            if known is None and self.test_hook:
+                known = self.test_hook(ctxt, n.test, st)
+            if known is not None:
+                t = known != neg
         if t is True:
             return self.ev(n.body, st)
         if t is False:
@@ -406,8 +415,9 @@ class SymExec(object):
         if isinstance(recv, list) and meth == "extend" and isinstance(args[0], (list, tuple)):
             recv.extend(args[0])
             return None
-        if isinstance(recv, dict) and meth == "get":
-            return recv.get(args[0], args[1] if len(args) > 1 else None)
+        if isinstance(recv, dict) and meth == "get" and args:
+            k = args[0] if isinstance(args[0], (str, int)) else self.text(args[0])      # same key normal form as e_Dict / e_Subscript
+            return recv.get(k, args[1] if len(args) > 1 else None)
         last = name.split(".")[-1] if name else None
         mod = name.split(".")[0] if name and "." in name else None
         num = lambda v: isinstance(v, (sp.Basic, int, float, Opaque)) and not isinstance(v, bool)
@@ -643,7 +653,7 @@ class SymExec(object):
         tgt_text = unparse(s.target)
         declared = set(st.env)
         # literal iteration over a python list of constants: unroll
-        if isinstance(it, (list, tuple)) and len(it) <= 12 and not any(isinstance(x, Opaque) for x in it):
+        if isinstance(it, (list, tuple)) and len(it) <= 12 and (self.unroll_opaque or not any(isinstance(x, Opaque) for x in it)):
             states = [st]
             for x in it:
                 nxt = []
